@@ -581,7 +581,7 @@ impl GroupAggregator {
             GroupAggregator::StandardDeviation { .. } => Ok(None),
             GroupAggregator::Percentile { values, percentile } => {
                 values.sort();
-                Ok(values.get((*percentile * values.len() as f64) as usize).cloned())
+                Ok(values.get(((*percentile * values.len() as f64) as usize).min(values.len().saturating_sub(1))).cloned())
             }
             GroupAggregator::BoolAnd { .. } => Ok(None),
             GroupAggregator::BoolOr { .. } => Ok(None),
